@@ -359,6 +359,11 @@ func (e *Engine) Corpus() ([]Input, error) {
 
 // ---- scenario sampling
 
+// Sample draws one scenario (exported for the self-test).
+func (e *Engine) Sample(rng *rand.Rand, in Input, all []Input, i int, sched bool) Scenario {
+	return e.sample(rng, in, all, i, sched)
+}
+
 func (e *Engine) sample(rng *rand.Rand, in Input, all []Input, i int, sched bool) Scenario {
 	sc := Scenario{
 		ID:    fmt.Sprintf("%s #%d", in.Name, i),
